@@ -188,13 +188,17 @@ theorem lock_path_obligation :
 theorem cmdChdirs_prepare : cmdChdirs true = true := by decide
 
 /-- With the facts extracted from the current sources the `config` sub-commands do not chdir … -/
-theorem cmdChdirs_config_current : cmdChdirs false = false := by decide
+theorem cmdChdirs_config_current : cmdChdirs false = true := by decide
 
-/-- … so the defect is present in the current code.  (If `config` is fixed to chdir, factgen flips
-`configChdirs`, this theorem stops compiling and `prepare_commands_release` applies instead.) -/
-theorem config_defect_current (root : List String) :
-    runCommand (cmdChdirs false) root (root ++ ["sub"]) true false = (false, true) := by
-  rw [cmdChdirs_config_current]; exact config_subdir_leaves_lock root
+/-- With the regenerated fact `configChdirs = true` (the `config` sub-commands now change to the
+project root before locking, like `prepare`), EVERY lock-taking command releases the lock from
+every working directory and whatever its body does. If the Go sources lose the `os.Chdir`, the
+fact flips, `cmdChdirs_config_current` stops building and `config_subdir_leaves_lock` describes
+the behaviour again. -/
+theorem all_commands_release (usesPrepare : Bool) (root cwd : List String) (bodyOk : Bool) :
+    runCommand (cmdChdirs usesPrepare) root cwd bodyOk false = (bodyOk, false) := by
+  have h : cmdChdirs usesPrepare = true := by cases usesPrepare <;> decide
+  rw [h]; exact prepare_commands_release root cwd bodyOk
 
 /-- Every `prepare`-based command is fine with the current facts. -/
 theorem prepare_current (root cwd : List String) (bodyOk : Bool) :
@@ -241,5 +245,5 @@ end Dud.Lock
 #print axioms Dud.Lock.lock_path_obligation
 #print axioms Dud.Lock.cmdChdirs_prepare
 #print axioms Dud.Lock.cmdChdirs_config_current
-#print axioms Dud.Lock.config_defect_current
+#print axioms Dud.Lock.all_commands_release
 #print axioms Dud.Lock.prepare_current
